@@ -134,6 +134,8 @@ def eval_clauses(contract_obj, s, extra_regions=None):
     for name, fn in contract_obj.ensures.items():
         try:
             val = fn(s)
+        except V.MissingField:
+            raise
         except (KeyError, IndexError, AttributeError, TypeError, ValueError) as e:
             # the outcome does not even have the shape the clause talks about (a field, an event, a result is
             # missing): the clause does not hold on this path
